@@ -603,6 +603,7 @@ func typedAPI(repM, repU *Report, wM, wU *CaseWriter, r *rand.Rand, thorough boo
 	}
 	apiTuples(repM, repU, r, n)
 	apiFuncTargets(repM, repU, r)
+	apiHookKeyOrder(repM, repU, r)
 	apiFanOut(repU, r)
 	streamsSharedToken(repU, "C05", "C01")
 	apiDeepShared(repM, repU)
@@ -1059,6 +1060,210 @@ func apiRecycledTargets(repU *Report, wU *CaseWriter, r *rand.Rand, n int) {
 				repU.violate("C01", "recycled-target-differs", what, desc)
 				repU.violate("C05", "recycled-target-differs", what, desc)
 			}
+		}
+	}
+}
+
+// ---- a decoder set up on a buffer that is still being written (encoder and decoder on one bytes.Buffer,
+// values written and read alternately): every token comes back as it was written ----
+func apiInterleavedCodec(rep *Report, ts []sb.Token, desc string) {
+	if len(ts) == 0 {
+		return
+	}
+	var buf bytes.Buffer
+	var got []sb.Token
+	err := guard(func() error {
+		dec := sb.Decode(&buf)
+		sink := sb.Encode(&buf)
+		for i := range ts {
+			tk := ts[i]
+			var e error
+			sink, e = sink(&tk)
+			if e != nil {
+				return fmt.Errorf("encode: %w", e)
+			}
+			var t sb.Token
+			if e := dec.Next(&t); e != nil {
+				return fmt.Errorf("decode of token %d: %w", i, e)
+			}
+			if t.Invalid() {
+				return fmt.Errorf("decode of token %d: the stream ended", i)
+			}
+			got = append(got, t)
+		}
+		return nil
+	})
+	rep.Evaluations++
+	rep.count("api:interleaved-codec")
+	if err != nil || !tokensExactEq(got, ts) {
+		what := fmt.Sprintf("tokens written to and read back from one growing buffer alternately: %v; read [%s]", err, truncate(descTokens(got), 300))
+		rep.violate("C02", "interleaved-roundtrip", what, desc)
+		rep.violate("C04", "interleaved-roundtrip", what, desc)
+		rep.violate("C01", "codec-roundtrip", what, desc)
+	}
+}
+
+// ---- the bytes of a token reach the writer when the token is encoded: after every step of a hand-driven
+// Encode sink the writer holds exactly the encoding of the tokens fed so far (every writer flavour) ----
+func apiIncrementalEncode(rep *Report, ts []sb.Token, full []byte, desc string) {
+	if len(ts) == 0 || len(full) > 200000 {
+		return
+	}
+	for flavour := range writerFlavours {
+		w, cw := mkWriter(flavour, 0)
+		var bad string
+		err := guard(func() error {
+			sink := sb.Encode(w)
+			prev := 0
+			for i := range ts {
+				tk := ts[i]
+				var e error
+				sink, e = sink(&tk)
+				if e != nil {
+					return e
+				}
+				n := cw.buf.Len()
+				if n <= prev || n > len(full) || !bytes.Equal(cw.buf.Bytes(), full[:n]) {
+					bad = fmt.Sprintf("after token %d the writer holds %d bytes (%d before it); the stream's encoding has %d", i, n, prev, len(full))
+					return nil
+				}
+				prev = n
+			}
+			if prev != len(full) {
+				bad = fmt.Sprintf("after the last token the writer holds %d of %d bytes", prev, len(full))
+			}
+			return nil
+		})
+		rep.Evaluations++
+		rep.count("api:incremental-encode")
+		if err != nil || bad != "" {
+			what := fmt.Sprintf("writer flavour %q driven token by token (as Sink.Marshal does): %s %v", writerFlavours[flavour], bad, err)
+			rep.violate("C03", "encode-holds-back-bytes", what, desc)
+			rep.violate("C02", "encode-holds-back-bytes", what, desc)
+			rep.violate("C15", "encode-holds-back-bytes", what, desc)
+			return
+		}
+	}
+	// the library's own Sink.Marshal over a plain writer
+	if len(ts) == 1 {
+		switch ts[0].Kind {
+		case sb.KindInt, sb.KindString, sb.KindBool, sb.KindBytes:
+			w, cw := mkWriter(0, 0)
+			err := guard(func() error {
+				s, e := sb.Encode(w).Marshal(ts[0].Value)
+				_ = s
+				return e
+			})
+			if err != nil || !bytes.Equal(cw.buf.Bytes(), full) {
+				what := fmt.Sprintf("Encode(w).Marshal(v) left %d bytes in the writer, the value's encoding has %d (%v)", cw.buf.Len(), len(full), err)
+				rep.violate("C03", "encode-holds-back-bytes", what, desc)
+				rep.violate("C02", "encode-holds-back-bytes", what, desc)
+			}
+		}
+	}
+}
+
+// ---- Compare over two comparison decoders that were given scratch buffers of DIFFERENT sizes ----
+func cmpSegBuffers(a, b []byte, na, nb int) (res int, err error) {
+	err = guard(func() error {
+		ra, rb := bytes.NewReader(a), bytes.NewReader(b)
+		pa := sb.DecodeBufferForCompare(ra, ra, make([]byte, na), nil)
+		pb := sb.DecodeBufferForCompare(rb, rb, make([]byte, nb), nil)
+		var e error
+		res, e = sb.Compare(&pa, &pb)
+		return e
+	})
+	return
+}
+
+var scratchSizes = []int{8, 9, 16, 32, 64, 100, 4096}
+
+func apiCompareScratch(rep *Report, r *rand.Rand, ea, eb []byte, s1 int, e1 error, desc string) {
+	na, nb := scratchSizes[r.Intn(len(scratchSizes))], scratchSizes[r.Intn(len(scratchSizes))]
+	s, e := cmpSegBuffers(ea, eb, na, nb)
+	rep.Evaluations++
+	rep.count("api:compare-scratch-sizes")
+	if e1 == nil && (e != nil || sgn(s) != sgn(s1)) {
+		rep.violate("C07", "routes-disagree", fmt.Sprintf("tokens=%d, DecodeBufferForCompare with scratch buffers of %d and %d bytes=%d (%v)", sgn(s1), na, nb, sgn(s), e), desc)
+		rep.violate("C04", "scratch-buffer-dependent", fmt.Sprintf("tokens=%d, DecodeBufferForCompare with scratch buffers of %d and %d bytes=%d (%v)", sgn(s1), na, nb, sgn(s), e), desc)
+	}
+}
+
+// ---- map keys of string-kinded types WITH marshalling hooks: entries are ordered by the keys' marshalled
+// streams, not by the raw key strings ----
+type RevKey string // Text hook: the text is the key reversed
+
+func (k RevKey) MarshalText() ([]byte, error) {
+	b := []byte(k)
+	for i, j := 0, len(b)-1; i < j; i, j = i+1, j-1 {
+		b[i], b[j] = b[j], b[i]
+	}
+	return b, nil
+}
+func (k *RevKey) UnmarshalText(bs []byte) error {
+	b := append([]byte{}, bs...)
+	for i, j := 0, len(b)-1; i < j; i, j = i+1, j-1 {
+		b[i], b[j] = b[j], b[i]
+	}
+	*k = RevKey(b)
+	return nil
+}
+
+type LenKey string // SB hook: marshals as the length of the key
+
+func (k LenKey) MarshalSB(ctx sb.Ctx, cont sb.Proc) sb.Proc {
+	return ctx.Marshal(ctx, reflect.ValueOf(len(k)), cont)
+}
+
+type NegKey int // Binary hook on an int-kinded type: marshals as the decimal text of -k
+
+func (k NegKey) MarshalBinary() ([]byte, error) { return []byte(fmt.Sprintf("%08d", 1000000-int(k))), nil }
+func (k *NegKey) UnmarshalBinary(bs []byte) error {
+	var n int
+	if _, err := fmt.Sscanf(string(bs), "%d", &n); err != nil {
+		return err
+	}
+	*k = NegKey(1000000 - n)
+	return nil
+}
+
+func apiHookKeyOrder(repM, repU *Report, r *rand.Rand) {
+	vals := []any{
+		map[RevKey]int{"az": 1, "by": 2, "cx": 3, "": 0},
+		map[LenKey]string{"aaaa": "4", "b": "1", "cc": "2"},
+		map[NegKey]bool{1: true, 2: false, 30: true},
+		map[any]int{RevKey("az"): 1, RevKey("by"): 2, "plain": 3},
+		struct{ M map[RevKey][]int }{map[RevKey][]int{"mz": {1}, "na": {2}}},
+	}
+	for _, x := range vals {
+		v := reflect.ValueOf(x)
+		ts, err := marshalTokens(x, nil)
+		repM.Evaluations++
+		repM.count("api:hook-key-order")
+		desc := fmt.Sprintf("map keys with marshalling hooks: type=%v", v.Type())
+		if err != nil {
+			repM.violate("C08", "marshal-error", fmt.Sprintf("%v", err), desc)
+			continue
+		}
+		if ok, msg := mapKeysAscending(ts); !ok {
+			repM.violate("C08", "map-keys-not-ascending", msg+" in ["+truncate(descTokens(ts), 300)+"]", desc)
+		}
+		rb := rebuildMaps(r, v)
+		ts2, e2 := marshalTokens(rb.Interface(), nil)
+		if e2 != nil || !tokensExactEq(ts, ts2) {
+			repM.violate("C08", "map-history-dependent", "the same content built through a different insertion/deletion history marshals differently", desc)
+		}
+	}
+	// round trip of the two key types that can be read back
+	m1 := map[RevKey]int{"az": 1, "by": 2, "cx": 3, "": 0}
+	m2 := map[NegKey]bool{1: true, 2: false, 30: true}
+	for _, x := range []any{m1, m2} {
+		ts, _ := marshalTokens(x, nil)
+		back := reflect.New(reflect.TypeOf(x))
+		e := guard(func() error { return copyBudget(tokensFrom(ts), sb.Unmarshal(back.Interface())) })
+		repU.Evaluations++
+		if e != nil || !reflect.DeepEqual(back.Elem().Interface(), x) {
+			repU.violate("C01", "roundtrip-error", fmt.Sprintf("a map keyed by a hook type does not round-trip: %v, got %v", e, back.Elem().Interface()), fmt.Sprintf("type=%T", x))
 		}
 	}
 }
